@@ -59,6 +59,11 @@ func main() {
 			usage()
 		}
 		dumpCmd(os.Args[2], os.Args[3])
+	case "wire":
+		if len(os.Args) < 5 {
+			usage()
+		}
+		wireCmd(os.Args[2], os.Args[3], os.Args[4])
 	case "explain":
 		if len(os.Args) < 3 {
 			usage()
@@ -112,6 +117,44 @@ func dumpCmd(corpus, re string) {
 		sort.Slice(list, func(i, j int) bool { return list[i].Name() < list[j].Name() })
 		for _, fi := range list {
 			fmt.Print(buildFuncIR(fi, funcs, co.Fset).Dump())
+		}
+	}
+}
+
+func wireCmd(corpus, re, cfgName string) {
+	rx := regexp.MustCompile(re)
+	ws, err := newWorkspace()
+	if err != nil {
+		fatalf("%v", err)
+	}
+	defer ws.Close()
+	corpora, err := ws.BuildCorpora(nil, "thorough", true)
+	if err != nil {
+		fatalf("%v", err)
+	}
+	cfgs := map[string]struct {
+		cfg *wireCfg
+		dir string
+	}{"tl1r": {tl1ReadCfg, "r"}, "tl1w": {tl1WriteCfg, "w"}, "tl2r": {tl2ReadCfg, "r"}, "tl2w": {tl2WriteCfg, "w"}, "tl2c": {tl2CalcCfg, "w"}}
+	cf := cfgs[cfgName]
+	for _, co := range corpora {
+		if co.Spec.Name != corpus {
+			continue
+		}
+		g := newGenCtx(nil, co)
+		var list []*FuncInfo
+		for _, fi := range g.funcs {
+			if rx.MatchString(fi.Name()) {
+				list = append(list, fi)
+			}
+		}
+		sort.Slice(list, func(i, j int) bool { return list[i].Name() < list[j].Name() })
+		for _, fi := range list {
+			w, b := g.wire(fi, cf.cfg, cf.dir)
+			fmt.Printf("== %s\n%s", fi.Name(), wString(w))
+			for _, p := range b.problems {
+				fmt.Println("  problem:", p)
+			}
 		}
 	}
 }
